@@ -1,12 +1,20 @@
+mod c10;
+mod c11;
+mod c19;
+mod ha;
+
 fn main() {
     let args = vf_core::parse_args();
-    let mut run = vf_core::Run::new(&args, "exploration");
+    let level = "exploration";
+    let mut run = vf_core::Run::new(&args, level);
     match args.property.as_str() {
+        "C10" => c10::run(&mut run),
+        "C11" => c11::run(&mut run),
+        "C19" => c19::run(&mut run),
         other => {
-            eprintln!("vf-crypto does not serve {other} yet (planned: C10 C11 C19)");
+            eprintln!("vf-crypto does not serve {other}");
             std::process::exit(2);
         },
     }
-    #[allow(unreachable_code)]
     run.finish_and_exit();
 }
